@@ -131,6 +131,11 @@ var shapes = []shape{
 	{name: "cyclic-pair",
 		pre:  func(s string) string { return fmt.Sprintf("c%[1]s := [0]\nd%[1]s := [c%[1]s]\nc%[1]s[0] = d%[1]s", s) },
 		post: func(s string) string { return fmt.Sprintf("c%[1]s[0] = 0", s) }},
+	{name: "cyclic-map-pair",
+		pre: func(s string) string {
+			return fmt.Sprintf("c%[1]s := {}\nd%[1]s := {peer: c%[1]s}\nc%[1]s.peer = d%[1]s", s)
+		},
+		post: func(s string) string { return fmt.Sprintf("c%[1]s.peer = 0", s) }},
 	{name: "cyclic-map-in-array",
 		pre:  func(s string) string { return fmt.Sprintf("c%[1]s := {}\nc%[1]s.a = [c%[1]s]", s) },
 		post: func(s string) string { return fmt.Sprintf("c%[1]s.a = 0", s) }},
